@@ -145,6 +145,8 @@ class PeekSlice(Terminal):
 
         pos = gen.new_temp("pos")
         gen.writeln(f"{pos} = state.pos")
+        # An empty slice matches without consuming anything.
+        gen.writeln(f"{matched_var} = True")
         peeked = gen.new_temp("peek")
         gen.writeln(f"for {peeked} in state.peek_slice({self.start}, {self.stop}):")
         with gen.block():
@@ -159,7 +161,10 @@ class PeekSlice(Terminal):
                 gen.writeln(f"state.fail({peeked})")
                 gen.writeln("break")
 
-        gen.writeln(f"state.pos = {pos}")
+        # Only advance if every entry in the slice matched.
+        gen.writeln(f"if {matched_var}:")
+        with gen.block():
+            gen.writeln(f"state.pos = {pos}")
 
         gen.writeln("# </PeekSlice>")
 
